@@ -13,9 +13,15 @@ INNER = {"QSchange_sense": "QSchange_senses", "QSdelete_row": "QSdelete_rows", "
 GROUPS = []
 for w in WRAPPERS:
     rep = []
-    GROUPS.append(Group("qs/" + w, "qs_edit.c", tus=QS, model=MODEL, defines=["FN_" + w],
+    kw = {}
+    if w == "QSchange_senses":   # the wrapper walks the row list after a successful edit (loop contract; list length capped for the in-range fact)
+        kw = dict(loops="qsopt_sense.json", expect_loops=1, kind="bounded", preinline=["mpq_QSchange_senses"],
+                  bound="at most 64 rows and a row list of at most 64 entries (the 'every listed row is in range' fact the library edit guarantees needs a constant-range quantifier); the loop is closed by an inductive invariant, no unwinding; everything else symbolic")
+    if w == "QSchange_sense":    # one-entry list: the loop of QSchange_senses runs once
+        kw = dict(unwindset=["mpq_QSchange_senses.0:2"], defines_extra=["QSV_MAPCAP=8"])
+    GROUPS.append(Group("qs/" + w, "qs_edit.c", tus=QS, model=MODEL, defines=["FN_" + w] + kw.pop("defines_extra", []),
                         enforce=["mpq_%s/contract_%s" % (w, w)], replace=rep,
-                        props=["C05", "C07", "C17"], assumed=[ASSUMED]))
+                        props=["C05", "C07", "C17"], assumed=[ASSUMED], **kw))
 
 GROUPS.append(Group("qs/opt", "qs_opt.c", tus=QS, model=MODEL, dfcc=False, flags=["--no-malloc-may-fail"], kind="proved",
                     remove_bodies=["grab_basis", "mpq_QSgrab_cache", "mpq_QScopy_prob", "mpq_QSfree_prob"],
@@ -26,3 +32,11 @@ GROUPS.append(Group("qs/opt", "qs_opt.c", tus=QS, model=MODEL, dfcc=False, flags
 GROUPS.append(Group("qs/accessors", "qs_access.c", tus=QS, model=MODEL, dfcc=False, kind="proved", functions=["QSget_solution", "QSget_x_array", "QSget_slack_array", "QSget_rc_array", "QSget_pi_array", "QSget_named_x", "QSget_named_rc", "QSget_named_pi", "QSget_named_slack", "QSget_objval"],
                     props=["C05", "C01", "C07", "C17"], note="loop-free wrappers; library callees stubbed",
                     assumed=["qs/accessors: ILLlib_solution / get_x / get_slack / objval / colindex / rowindex are ghost-recording stubs (ILLlib_solution's cache branch is decided in lib/solution)"]))
+
+GROUPS += [
+    Group("qs/chgsense_basis" + sfx, "qs_sense_basis.c", tus=["qsopt_mpq.c", "allocrus.c"], model=MODEL, defines=defs, dfcc=False, unwind=5, kind="bounded", timeout=900,
+          bound="stored basis of 3 rows with arbitrary row statuses, sense lists of at most 2 entries (any rows, any of L G E R); loops completely unwound",
+          must_fail=["reach_end", "reach_two_rows_changed"] if not defs else ["reach_end"], functions=[fn], props=["C05", "C17"],
+          assumed=["qs/chgsense_basis: ILLlib_chgsense is an arbitrary-result stub (decided in lib/chgsense_b); 'ILLbasis_load accepts at-upper only for ranged rows' is the loader's rule (basis.c), decided for the loader in basis/load"])
+    for sfx, defs, fn in [("", [], "QSchange_senses"), ("_1", ["FN_single"], "QSchange_sense")]
+]
